@@ -16,13 +16,15 @@ Record squirks := {
   q_ts_block_comment_counted : bool; (* TS/JS count_loc only drops // lines: block comment lines count as code *)
   q_rs_name_collision : bool;        (* impl blocks matched to structs by bare name across modules *)
   q_rs_block_comment_counted : bool; (* _node_loc only drops // lines: block comment lines count as code *)
+  q_py_setter_counted : bool;        (* @x.setter / @x.deleter functions are counted (only the plain name `property` is recognised) *)
+  q_py_cached_property_counted : bool; (* @cached_property functions are counted *)
 }.
 (* Repaired in /repo (fix: commits 447c6e4, 24b8b61, c90fc92) and therefore no longer quirks: abstract classes skipped,
    impl target = trait name, generic impls lost, TS line count = raw span.  The model now reads the class node types,
    the impl-target rule and the line-count rule from the generated layer (ts_class_node_types, rs_target_mode,
    ts_loc_mode), so reverting a fix makes the model follow the source again and the theorems fail. *)
-Definition ideal : squirks := Build_squirks false false false false false false.
-Definition all_on : squirks := Build_squirks true true true true true true.
+Definition ideal : squirks := Build_squirks false false false false false false false false.
+Definition all_on : squirks := Build_squirks true true true true true true true true.
 
 (* ------------------------------------------------------------------ configuration (config.py, linter_utils.py) *)
 Record conf := { cf_mm : nat; cf_ml : nat; cf_enabled : bool; cf_check : bool; cf_keywords : list string }.
@@ -127,7 +129,11 @@ Definition text_counts (pfx : string) (x : line) : bool :=
 Definition py_node (k : mkind) : string :=
   match k with MAsync => "AsyncFunctionDef" | MField => "Assign" | _ => "FunctionDef" end.
 Definition py_decorators (k : mkind) : list string :=
-  match k with MStatic => ["staticmethod"] | MClassM => ["classmethod"] | MProperty => ["property"] | _ => [] end.
+  match k with
+  | MStatic => ["staticmethod"] | MClassM => ["classmethod"] | MProperty => ["property"]
+  | MCachedProp => ["cached_property"]
+  | _ => []      (* @x.setter is an ast.Attribute, not an ast.Name *)
+  end.
 
 (* one exclusion test of _is_countable_method; true = "return False" *)
 Definition py_test (m : member) (t : mtest) : bool :=
@@ -137,9 +143,11 @@ Definition py_test (m : member) (t : mtest) : bool :=
   | TNameEq s => String.eqb (m_name m) s
   | TNotNodeType ty => negb (String.eqb (py_node (m_kind m)) ty)
   end.
-Definition py_countable (m : member) : bool :=
-  smem (py_node (m_kind m)) py_method_node_types && negb (existsb (py_test m) py_countable_tests).
-Definition py_count_methods (c : cls) : nat := List.length (filter py_countable (c_members c)).
+Definition py_countable (q : squirks) (m : member) : bool :=
+  smem (py_node (m_kind m)) py_method_node_types && negb (existsb (py_test m) py_countable_tests)
+  && (q_py_setter_counted q || negb (is_setter (m_kind m)))
+  && (q_py_cached_property_counted q || negb (is_cached (m_kind m))).
+Definition py_count_methods (q : squirks) (c : cls) : nat := List.length (filter (py_countable q) (c_members c)).
 
 Definition py_line_counts (q : squirks) (x : line) : bool :=
   text_counts py_comment_prefix x || (negb (q_py_hash_in_string q) && lkind_eqb (l_kind x) LStrHash).
@@ -149,7 +157,7 @@ Definition py_count_loc (q : squirks) (lines : list line) (c : cls) : nat :=
   List.length (filter (py_line_counts q) (slice (c_line c - py_loc_lo_sub) (c_line c + c_len c - 1 + py_loc_hi_add) lines)).
 
 Definition py_class_rep (q : squirks) (cfg : conf) (lines : list line) (c : cls) : list rep :=
-  class_rep py_metrics_dict (c_name c) (py_count_methods c) (py_count_loc q lines c)
+  class_rep py_metrics_dict (c_name c) (py_count_methods q c) (py_count_loc q lines c)
             (has_kw py_kw_mode (cf_keywords cfg) (c_name c)) (c_line c) (c_col c) (c_line c) (c_col c) cfg.
 
 Definition py_report (q : squirks) (cfg : conf) (f : sfile) : list rep :=
